@@ -72,9 +72,12 @@ PROPS = {
         "assumptions": HIST_ASSUME,
     },
     "C03": {
-        "theorems": ["readonly_keeps_tracking", "readonly_single_ro_base_call", "mutator_shape"],
-        "streams": [{"name": "hist", "quick": ["-n", "400"], "thorough": ["-n", "6000"]}],
-        "assumptions": HIST_ASSUME + ["reading adopted for RemoveAll below a file (ENOTDIR): counts as 'does not exist'"],
+        "theorems": ["readonly_keeps_tracking", "readonly_single_ro_base_call", "mutator_shape",
+                     "transparent_linkfree_partial", "affects_only_named_entry", "readonly_changes_nothing_disk",
+                     "removeAll_below_file_differs"],
+        "extra_modules": ["C03T"],
+        "streams": [{"name": "hist", "quick": ["-n", "400"], "thorough": ["-n", "6000"]}, {"name": "osmodel", "quick": ["-n", "300"], "thorough": ["-n", "4000"]}],
+        "assumptions": HIST_ASSUME + ["the reference side of transparent_linkfree_partial, Op.direct (Model/Direct.lean), is what the driver executes for the osmodel stream's commands, so it is compared with the real PrefixFS(OSFS) on every run", "reading adopted for RemoveAll below a file (ENOTDIR): counts as 'does not exist'"],
     },
     "C04": {
         "theorems": ["newWithFS_wiring", "base_view_never_names_loc", "backup_view_confined_to_loc", "loc_is_hidden"],
